@@ -137,6 +137,33 @@ func cmdGenAccept(args []string) int {
 	return 0
 }
 
+// cmdGenTypeInv prints candidate representation invariants: every child field of a node is non-nil
+func cmdGenTypeInv(args []string) int {
+	e, err := loadEngine(repoDir(), filepath.Join(verifDir, "spec", "trusted"))
+	if err != nil {
+		fmt.Fprintln(os.Stderr, err)
+		return 2
+	}
+	nilable := map[string]bool{"queryNode.SortBy": true, "queryNode.Skip": true, "queryNode.Limit": true, "untypedQueryNode.sortBy": true, "untypedQueryNode.skip": true, "untypedQueryNode.limit": true, "CountSetExprNode.query": true, "IsEmptySetExprNode.query": true}
+	for _, a := range args {
+		nilable[a] = true
+	}
+	for _, at := range e.acceptTypes() {
+		name := at.named.Obj().Name()
+		var parts []string
+		for _, f := range at.fields {
+			if f.slice || nilable[name+"."+f.name] {
+				continue
+			}
+			parts = append(parts, "self."+f.name+" != nil")
+		}
+		if len(parts) > 0 {
+			fmt.Printf("//@ typeinv %s: %s\n", name, strings.Join(parts, " && "))
+		}
+	}
+	return 0
+}
+
 // cmdGenGetType prints contracts for the GetType methods of all node types (constant results are stated)
 func cmdGenGetType(args []string) int {
 	e, err := loadEngine(repoDir(), filepath.Join(verifDir, "spec", "trusted"))
